@@ -27,8 +27,12 @@ fn alpn_wire(protos: &[String]) -> Vec<u8> {
 	v
 }
 
-fn connector(protos: &[String]) -> Result<SslConnector, String> {
+fn connector(protos: &[String], max12: bool) -> Result<SslConnector, String> {
 	let mut b = SslConnector::builder(SslMethod::tls()).map_err(|e| e.to_string())?;
+	if max12 {
+		// the lowest version RFC 8737 allows a validator to use
+		b.set_max_proto_version(Some(openssl::ssl::SslVersion::TLS1_2)).map_err(|e| e.to_string())?;
+	}
 	b.set_verify(SslVerifyMode::NONE);
 	if !protos.is_empty() {
 		b.set_alpn_protos(&alpn_wire(protos)).map_err(|e| e.to_string())?;
@@ -50,7 +54,12 @@ fn finish<S: Read + Write + std::fmt::Debug>(r: Result<openssl::ssl::SslStream<S
 
 /// One TLS handshake offering `protos` (empty: no ALPN extension) with SNI `sni`.
 pub fn handshake(target: &Target, sni: &str, protos: &[String], timeout: Duration) -> Result<Handshake, String> {
-	let c = connector(protos)?;
+	handshake_v(target, sni, protos, timeout, false)
+}
+
+/// as `handshake`; `max12`: the client offers TLS 1.2 at most (otherwise everything the local OpenSSL offers, 1.3 included)
+pub fn handshake_v(target: &Target, sni: &str, protos: &[String], timeout: Duration, max12: bool) -> Result<Handshake, String> {
+	let c = connector(protos, max12)?;
 	let mut cfg = c.configure().map_err(|e| e.to_string())?;
 	cfg.set_verify_hostname(false);
 	match target {
